@@ -1,0 +1,33 @@
+//go:build verif
+
+// Contracts for govc (contract-based deductive verification); comments only.
+package preempt
+
+//@ import v2alpha2 "github.com/NVIDIA/KAI-scheduler/pkg/apis/scheduling/v2alpha2"
+
+// C06: "never evict pods of non-preemptible workloads ...; preempt victims belong to the preemptor's
+// queue and have strictly lower priority" (+ DESIGN: UID differs, has active allocated tasks, and the
+// registered plugin filters - min-runtime - accept it).
+// C05 (converse): "a pending workload obtains capacity by preempting a strictly lower-priority
+// preemptible workload of its own queue": every such victim IS accepted.
+// activeAlloc: the job's count of active allocated tasks (cache cell, always non-nil: set by
+// NewPodGroupInfo/CloneWithTasks and maintained by add/deleteTaskIndex).
+//@ define activeAlloc(j *podgroup_info.PodGroupInfo) int = *j.activeAllocatedCount
+//@ define preemptVictim(ssn *framework.Session, p *podgroup_info.PodGroupInfo, j *podgroup_info.PodGroupInfo) bool = j.Preemptibility == v2alpha2.Preemptible && j.Priority < p.Priority && j.Queue == p.Queue && j.UID != p.UID && activeAlloc(j) > 0 && framework.preemptVictimOK(ssn, p, j)
+
+//@ func buildFilterFuncForPreempt$1
+//@   props C06 C05
+//@   requires job != nil && preemptor != nil && ssn != nil
+//@   # registered plugin filters are real functions (AddPreemptVictimFilterFn appends plugin methods only)
+//@   requires forall i int :: 0 <= i && i < len(ssn.PreemptVictimFilterFns) ==> ssn.PreemptVictimFilterFns[i] != nil
+//@   # data invariant of PodGroupInfo: the cached count exists and is a count
+//@   requires job.activeAllocatedCount != nil && *job.activeAllocatedCount >= 0
+//@   modifies job.activeAllocatedCount
+//@   ensures [eligibleVictim] result == old(preemptVictim(ssn, preemptor, job))
+//@   ensures [eligibleAccepted] old(preemptVictim(ssn, preemptor, job)) ==> result
+//@   ensures [onlyPreemptible] result ==> job.Preemptibility == v2alpha2.Preemptible
+//@   ensures [strictlyLowerPriority] result ==> job.Priority < preemptor.Priority
+//@   ensures [sameQueue] result ==> job.Queue == preemptor.Queue
+//@   ensures [notSelf] result ==> job.UID != preemptor.UID
+//@   ensures [minRuntimeFilter] result ==> framework.preemptVictimOK(ssn, preemptor, job)
+//@ end
